@@ -93,21 +93,16 @@ func (t *tcpTransport) SetEncryption(ctx context.Context, e SessionEncryption) e
 		tlsConn = tls.Client(t.conn, t.TLSConfig)
 	}
 
-	var deadline time.Time
-	var ok bool
-	if deadline, ok = ctx.Deadline(); !ok {
-		deadline = time.Now().Add(30 * time.Second)
-	}
-
-	if err := tlsConn.SetWriteDeadline(deadline); err != nil {
-		return err
-	}
-	if err := tlsConn.SetReadDeadline(deadline); err != nil {
-		return err
+	// The handshake is bounded by the context (deadline or cancellation) and,
+	// if it has no deadline, by a default timeout.
+	if _, ok := ctx.Deadline(); !ok {
+		var cancel context.CancelFunc
+		ctx, cancel = context.WithTimeout(ctx, 30*time.Second)
+		defer cancel()
 	}
 
 	// We convert existing connection to TLS
-	if err := tlsConn.Handshake(); err != nil {
+	if err := tlsConn.HandshakeContext(ctx); err != nil {
 		return err
 	}
 
